@@ -220,6 +220,11 @@ def make_replay(pid, ob, src, hdir, first_out, replay_dir):
         native_out = pb["out"]
         # the native run of the harness body against the real code must fail (panic / failed assertion)
         reproduced = bool(re.search(r"test result: FAILED|panicked at", native_out or ""))
+        if "has stubs which are not applied" in test:
+            # Kani does not apply stubs in concrete playback: the native run executes different code than the proof,
+            # so its outcome says nothing about the counterexample
+            reproduced = False
+            native_out = "(harness uses stubs: the native playback is not a replay of the verifier's counterexample)\n" + (native_out or "")
     doc = {
         "property": pid,
         "obligation": ob["name"],
